@@ -1,6 +1,7 @@
 import InfluxQL.Lemmas.Render
 import InfluxQL.Lemmas.ExprRoundTrip
 import InfluxQL.Lemmas.RegexGap
+import InfluxQL.Lemmas.ExprLeavesWide
 /-
 Free spelling of expressions (C01 on top of C03).
 
@@ -385,6 +386,28 @@ theorem parseRegex_gap_text (s : PState) (g : Render.Gap) (src k : Str) (hn : s.
   rw [hrun'] at hwp
   exact ⟨lx, s'', hrun', h2, h3, ⟨⟨h4.1.trans hat.params, h4.2.trans hat.lower⟩, fun _ => hwp.1.good.hb⟩⟩
 
+/-- `ParseDuration(lit)` succeeds with value `d`. -/
+def durValB (lit : Str) (d : Int) : Bool :=
+  match parseDuration lit with
+  | .ok v => v == d
+  | .error _ => false
+
+theorem durValB_elim {lit : Str} {d : Int} (h : durValB lit d = true) : parseDuration lit = .ok d := by
+  unfold durValB at h
+  split at h
+  · next v hv => rw [hv]; simp only [beq_iff_eq] at h; rw [h]
+  · cases h
+
+/-- Boolean form of `DurEnd`. -/
+def durEndB : Str → Bool
+  | [] => false
+  | x :: _ => !isDurTailChar x
+
+theorem durEnd_of_B {k : Str} (h : durEndB k = true) : DurEnd k := by
+  cases k with
+  | nil => cases h
+  | cons x t => exact ⟨x, t, rfl, by simpa [durEndB] using h⟩
+
 /-! ## Part 3: spelled expressions -/
 
 mutual
@@ -394,6 +417,10 @@ mutual
     | ref (sp : Render.NameSpelling) (n : Str)
     | int (z n : Nat)
     | str (v : Str)
+    /-- `true` / `false` in any letter case -/
+    | bool (w : Str) (b : Bool)
+    /-- a duration literal as the scanner accepts it (`1h30m`, `0090m`, `10u`) with the value `ParseDuration` computes -/
+    | dur (lit : Str) (d : Int)
     | paren (g1 : Render.Gap) (a : SAtom) (ops : SOps) (g2 : Render.Gap)
   /-- The operators that follow the first operand of a chain, each with the gap before it, its
   spelling, the gap after it and its right operand. -/
@@ -410,6 +437,8 @@ mutual
     | .ref sp n => Render.spellName sp n
     | .int z n => Render.zeroPad z n
     | .str v => quoteString v
+    | .bool w _ => w
+    | .dur lit _ => lit
     | .paren g1 a ops g2 => '(' :: (Render.gapText g1 ++ (a.text ++ (ops.text ++ (Render.gapText g2 ++ [')']))))
   def SOps.text : SOps → Str
     | .nil => []
@@ -427,6 +456,8 @@ mutual
     | .ref _ n => .varRef n .Unknown
     | .int _ n => intLit n
     | .str v => .string v
+    | .bool _ b => .boolean b
+    | .dur _ d => .duration d
     | .paren _ a ops _ => .paren (ops.erase a.erase)
   /-- The tree a chain denotes: every operator is inserted by precedence and left associativity
   (`insertOp`; by C03 `chain_wellGrouped` / `chain_unique` the only well-grouped tree with this yield). -/
@@ -444,6 +475,8 @@ mutual
     | .ref .quoted n, _ => Render.NameSpelling.ok .quoted n
     | .int _ n, k => decide ((n : Int) ≤ maxUInt64) && numEndB k
     | .str v, _ => RT.exprB v
+    | .bool w b, k => decide (Render.KwSpelling (if b then .TRUE else .FALSE) w) && wordEndB k
+    | .dur lit d, k => Render.durLitOK lit && durValB lit d && durEndB k
     | .paren g1 a ops g2, k =>
       Render.gapOK g1 && Render.gapOK g2 && a.legal (ops.text ++ (Render.gapText g2 ++ ')' :: k)) &&
         ops.legal (Render.gapText g2 ++ ')' :: k)
@@ -784,6 +817,21 @@ theorem specU_step (F : Nat) (ihE : SpecE F) : SpecU (F + 1) := by
       (scansAs_string v _ (RT.exprB_expressible hleg))
     rw [wp_of_run_ok (RT.unary_string F s s1 lx r1 hrun hj htok)]
     exact ⟨by rw [hlit]; simp [SAtom.erase], hj.at hrem, hsame⟩
+  | bool w b =>
+    rw [SAtom.legal, Bool.and_eq_true, decide_eq_true_eq] at hleg
+    rw [SAtom.text] at hat
+    obtain ⟨lx, s1, r1, hrun, htok, _, hj, hrem, hsame⟩ := scanIW_piece s g _ _ _ _ hat hg
+      (Render.scansAs_kwSpelling (if b then .TRUE else .FALSE) w _ (by cases b <;> decide) hleg.1 (wordEnd_of_B hleg.2))
+    rw [wp_of_run_ok (RT.unary_bool F s s1 lx r1 b hrun hj htok)]
+    exact ⟨by simp [SAtom.erase], hj.at hrem, hsame⟩
+  | dur lit d =>
+    rw [SAtom.legal] at hleg
+    simp only [Bool.and_eq_true] at hleg
+    rw [SAtom.text] at hat
+    obtain ⟨lx, s1, r1, hrun, htok, hlit, hj, hrem, hsame⟩ := scanIW_piece s g _ _ _ _ hat hg
+      (Render.scansAs_durLit lit _ hleg.1.1 (durEnd_of_B hleg.2))
+    rw [wp_of_run_ok (RT.unary_duration F s s1 lx r1 hrun hj htok d (by rw [hlit]; exact durValB_elim hleg.1.2))]
+    exact ⟨by simp [SAtom.erase], hj.at hrem, hsame⟩
   | paren g1 a1 ops g2 =>
     rw [SAtom.legal] at hleg
     simp only [Bool.and_eq_true] at hleg
@@ -900,6 +948,8 @@ theorem SAtom.erase_nb (a : SAtom) : RT.NB a.erase := by
   | ref sp n => simp [SAtom.erase] at h
   | int z n => simp only [SAtom.erase, intLit] at h; split at h <;> cases h
   | str v => simp [SAtom.erase] at h
+  | bool w b => simp [SAtom.erase] at h
+  | dur lit d => simp [SAtom.erase] at h
   | paren g1 a ops g2 => simp [SAtom.erase] at h
 
 theorem SOps.pairs_nb : ∀ (ops : SOps), ∀ p ∈ ops.pairs, RT.NB p.2
